@@ -210,7 +210,7 @@ fn obs_lines(names: &[String], pure1: &[String]) -> String {
     for n in names {
         if n == "rd0" || n.starts_with("own_eq") {
             s += &format!("emit(\"call\", \"{n}\", {n}())\n");
-        } else if n == "ad0" || n == "lp0" || n == "use_gf0" || n == "use_and0" || n == "use_slices0" || pure1.contains(n) {
+        } else if n == "ad0" || n == "lp0" || n == "use_gf0" || n == "use_and0" || n == "use_slices0" || n == "copy_mut0" || pure1.contains(n) {
             s += &format!("emit(\"call\", \"{n}\", {n}(3))\n");
         } else if n == "held0" {
             s += "emit(\"call\", \"held0\", held0[1](), held0[2][\"f\"](4))\n";
@@ -310,6 +310,8 @@ impl World for C04 {
                     "GT6 = (0, 1, 2, 3, 4, 5)",
                     "GS6 = \"abcdef\" + str(len(GL6))",
                     "def use_slices0(i):\n    return [GL6[i:5:1], GL6[1:i:1], GL6[0:5:i], GL6[i:], GL6[:i], GL6[::i], GL6[i:5], GL6[i::2], GT6[i:5:1], GS6[i:5:1], GL6[-i:6:1], GL6[i], GT6[-i]]",
+                    "def copy_mut0(x):\n    r = [y for y in GL6]\n    r.append(x)\n    t = [y for y in GT6]\n    t.append(x)\n    l2 = list(GL6)\n    l2.append(x)\n    l3 = GL6 + []\n    l3.append(x)\n    l4 = GL6[:]\n    l4.append(x)\n    l5 = sorted(GL6)\n    l5.append(x)\n    d = {k: v for k, v in GD6.items()}\n    d[\"n\"] = x\n    d2 = dict(GD6)\n    d2[\"n\"] = x\n    s = set(GL6)\n    s.add(x + 100)\n    return [r, t, l2, l3, l4, l5, d, d2, len(s), GL6, GD6]",
+                    "GD6 = {\"a\": [1], \"b\": 2}",
                     "GF0 = 0",
                     "GL0 = GL0 + [2]",
                     "GS0 = GS0 + \"t\"",
